@@ -5,10 +5,111 @@ VERIF = os.path.dirname(os.path.dirname(os.path.abspath(__file__)))
 props = [json.loads(l) for l in open(os.path.join(VERIF, "properties.jsonl"))]
 
 CHECKS = {
- "C20": dict(level="proof", technique="Coq proof (invariant + induction over all Set histories) on a hand-written model tied by extracted-model correspondence",
-      text="Theorem C20 (Props/C20.v): for every finite list of int32 arguments the model of Small.Set returns Ok with exactly the answers of a mathematical set; proved by an abstraction invariant and induction, no bound on history length or values. The model is tied to internal/bitset/set.go by running the extracted model and the real Set on the same histories (exhaustive short histories over the property's alphabet + random long ones).",
-      note="Trusted: Coq kernel, extraction (ExtrOcamlBasic), OCaml driver, Go harness; uint64 words modelled as Z, slices as lists with explicit panics. The tie to the Go code is differential testing, not proof.",
-      ref="8 C20"),
+ "C01": {
+  "level": "proof",
+  "technique": "Coq proofs of field/framing encoders + extracted-model correspondence on exact Marshal bytes + protobuf-go parse",
+  "text": "Proved in Coq for all values/sizes (no bound): every scalar writer emits the reference field for every value of all 15 kinds and every valid field number (C01_scalar_field); anyBytes frames every payload length with tag+minimal length without panicking (C01_framing); the spec varint reader accepts what is written. The whole-message statement is NOT proved (stated as PARTIAL in the Props file); it is decided on every run by evaluating the extracted model (generated-program interpreter + reference spec) and the implementation on the same generated inputs and comparing them with each other and with protobuf-go.",
+  "note": "Trusted: Coq 8.16.1 kernel (vm_compute, no native_compute, no axioms: Print Assumptions recorded in evidence), extraction with ExtrOcamlBasic, the OCaml driver, the Go harness and generators, protobuf-go v1.31.0 as oracle. The tie between model and Go code is differential testing on the projection named in the level text, not proof.",
+  "ref": "8 C01"
+ },
+ "C02": {
+  "level": "proof",
+  "technique": "Coq proofs of decode rules and reader contracts + correspondence on rewritten valid encodings + protobuf-go",
+  "text": "Proved in Coq for all values/sizes (no bound): the narrowing/zig-zag/bool rules equal the protobuf rules for every 64-bit wire value (C02_value_rules); single readers return the encoded value and leave the cursor on the next tag. The whole-message statement is NOT proved (stated as PARTIAL in the Props file); it is decided on every run by evaluating the extracted model (generated-program interpreter + reference spec) and the implementation on the same generated inputs and comparing them with each other and with protobuf-go.",
+  "note": "Trusted: Coq 8.16.1 kernel (vm_compute, no native_compute, no axioms: Print Assumptions recorded in evidence), extraction with ExtrOcamlBasic, the OCaml driver, the Go harness and generators, protobuf-go v1.31.0 as oracle. The tie between model and Go code is differential testing on the projection named in the level text, not proof.",
+  "ref": "8 C02"
+ },
+ "C03": {
+  "level": "proof",
+  "technique": "Coq round-trip proofs per kind and for picoconv + model/implementation correspondence",
+  "text": "Proved in Coq for all values/sizes (no bound): dec(enc v) = v bit for bit for every value of every kind; Duration and Time round trips over int64. The whole-message statement is NOT proved (stated as PARTIAL in the Props file); it is decided on every run by evaluating the extracted model (generated-program interpreter + reference spec) and the implementation on the same generated inputs and comparing them with each other and with protobuf-go.",
+  "note": "Trusted: Coq 8.16.1 kernel (vm_compute, no native_compute, no axioms: Print Assumptions recorded in evidence), extraction with ExtrOcamlBasic, the OCaml driver, the Go harness and generators, protobuf-go v1.31.0 as oracle. The tie between model and Go code is differential testing on the projection named in the level text, not proof.",
+  "ref": "8 C03"
+ },
+ "C04": {
+  "level": "proof",
+  "technique": "Coq bounds proofs of wire readers + malformed-stream correspondence (outcome class) + runtime observation",
+  "text": "Proved in Coq for all values/sizes (no bound): on arbitrary bytes the varint and length-delimited readers return an error or a length inside the input (no out-of-bounds slice). PARTIAL: termination (fuel never exhausted), panic-freedom of the Go code, stack depth and time are validated by correspondence/observation (recover, watchdog, 10001-deep groups, input bytes before/after), not proved.",
+  "note": "Trusted: Coq 8.16.1 kernel (vm_compute, no native_compute, no axioms: Print Assumptions recorded in evidence), extraction with ExtrOcamlBasic, the OCaml driver, the Go harness and generators, protobuf-go v1.31.0 as oracle. The tie between model and Go code is differential testing on the projection named in the level text, not proof.",
+  "ref": "8 C04"
+ },
+ "C05": {
+  "level": "proof",
+  "technique": "Coq proofs of rejection/stickiness lemmas + correspondence on err==nil vs independent well-formedness predicate",
+  "text": "Proved in Coq for all values/sizes (no bound): numbers above 2^29-1, truncated tags and wrong wire types are errors; dec.err is never cleared by cursor moves or popState. PARTIAL: err==nil <-> wf_input for whole messages is decided per run: implementation = model = Coq wf_input = independent predicate on protobuf-go's protowire, on prefixes/corruptions/short token strings.",
+  "note": "Trusted: Coq 8.16.1 kernel (vm_compute, no native_compute, no axioms: Print Assumptions recorded in evidence), extraction with ExtrOcamlBasic, the OCaml driver, the Go harness and generators, protobuf-go v1.31.0 as oracle. The tie between model and Go code is differential testing on the projection named in the level text, not proof.",
+  "ref": "8 C05"
+ },
+ "C06": {
+  "level": "proof",
+  "technique": "Coq proofs of minimal varints/tags/length patching + exact-bytes correspondence + fixpoint oracle",
+  "text": "Proved in Coq for all values/sizes (no bound): minimal varints for every uint64, canonical tags for every valid number, minimal length prefix for every payload length (all three patching branches), default omission. The whole-message statement is NOT proved (stated as PARTIAL in the Props file); it is decided on every run by evaluating the extracted model (generated-program interpreter + reference spec) and the implementation on the same generated inputs and comparing them with each other and with protobuf-go. Violations are decided by the property's own fixpoint test (bytes == deterministic re-marshal of their parse).",
+  "note": "Trusted: Coq 8.16.1 kernel (vm_compute, no native_compute, no axioms: Print Assumptions recorded in evidence), extraction with ExtrOcamlBasic, the OCaml driver, the Go harness and generators, protobuf-go v1.31.0 as oracle. The tie between model and Go code is differential testing on the projection named in the level text, not proof.",
+  "ref": "8 C06"
+ },
+ "C08": {
+  "level": "proof",
+  "technique": "Coq proofs about the generator model (Always selection) and writers + presence-skeleton correspondence",
+  "text": "Proved in Coq for all values/sizes (no bound): for every schema the generator model selects Always writers for pointer scalars and scalar/enum oneof members; Always writers emit every value; present sub-messages are framed, absent ones leave no trace. The whole-message statement is NOT proved (stated as PARTIAL in the Props file); it is decided on every run by evaluating the extracted model (generated-program interpreter + reference spec) and the implementation on the same generated inputs and comparing them with each other and with protobuf-go.",
+  "note": "Trusted: Coq 8.16.1 kernel (vm_compute, no native_compute, no axioms: Print Assumptions recorded in evidence), extraction with ExtrOcamlBasic, the OCaml driver, the Go harness and generators, protobuf-go v1.31.0 as oracle. The tie between model and Go code is differential testing on the projection named in the level text, not proof.",
+  "ref": "8 C08"
+ },
+ "C09": {
+  "level": "proof",
+  "technique": "Coq cursor lemmas + history correspondence (sequential vs one-shot vs reference)",
+  "text": "Proved in Coq for all values/sizes (no bound): non-pending readers leave state untouched; consuming n bytes leaves exactly the rest; the value read is independent of the old value. The whole-message statement is NOT proved (stated as PARTIAL in the Props file); it is decided on every run by evaluating the extracted model (generated-program interpreter + reference spec) and the implementation on the same generated inputs and comparing them with each other and with protobuf-go.",
+  "note": "Trusted: Coq 8.16.1 kernel (vm_compute, no native_compute, no axioms: Print Assumptions recorded in evidence), extraction with ExtrOcamlBasic, the OCaml driver, the Go harness and generators, protobuf-go v1.31.0 as oracle. The tie between model and Go code is differential testing on the projection named in the level text, not proof.",
+  "ref": "8 C09"
+ },
+ "C10": {
+  "level": "proof",
+  "technique": "Coq lemmas on skipping/re-tagging + unknown-injection correspondence",
+  "text": "Proved in Coq for all values/sizes (no bound): known readers ignore unknown pending fields; captured fields get the canonical tag; skipping a varint consumes exactly its bytes. The whole-message statement is NOT proved (stated as PARTIAL in the Props file); it is decided on every run by evaluating the extracted model (generated-program interpreter + reference spec) and the implementation on the same generated inputs and comparing them with each other and with protobuf-go.",
+  "note": "Trusted: Coq 8.16.1 kernel (vm_compute, no native_compute, no axioms: Print Assumptions recorded in evidence), extraction with ExtrOcamlBasic, the OCaml driver, the Go harness and generators, protobuf-go v1.31.0 as oracle. The tie between model and Go code is differential testing on the projection named in the level text, not proof.",
+  "ref": "8 C10"
+ },
+ "C11": {
+  "level": "proof",
+  "technique": "Coq proof generic in key/value kind for entry encoding + correspondence on map messages",
+  "text": "Proved in Coq for all values/sizes (no bound): for all 12x15 kinds an entry is tag+minimal length+(key unless default)+(value unless default) (C11_entry). The whole-message statement is NOT proved (stated as PARTIAL in the Props file); it is decided on every run by evaluating the extracted model (generated-program interpreter + reference spec) and the implementation on the same generated inputs and comparing them with each other and with protobuf-go. All 180 instantiations are exercised through a generated schema in the thorough tier; quick covers the 27 checked-in instantiations.",
+  "note": "Trusted: Coq 8.16.1 kernel (vm_compute, no native_compute, no axioms: Print Assumptions recorded in evidence), extraction with ExtrOcamlBasic, the OCaml driver, the Go harness and generators, protobuf-go v1.31.0 as oracle. The tie between model and Go code is differential testing on the projection named in the level text, not proof.",
+  "ref": "8 C11"
+ },
+ "C13": {
+  "level": "proof",
+  "technique": "Coq proofs of writer/reader contracts + exhaustive grids against protobuf-go protowire",
+  "text": "Proved in Coq for all values/sizes (no bound): all 30 single writers (15 kinds x Always) append exactly the reference field or nothing; Message/AlwaysMessage/PresentMessage/AlwaysAnyBytes compose to tag+len+payload for every length and leave no trace on absence; single readers: untouched on another field, sticky error naming the field on a wrong wire type, exactly one field consumed otherwise. PARTIAL: Repeated* readers/writers, Message readers and arbitrary programs are tied by the exhaustive correspondence grids only.",
+  "note": "Trusted: Coq 8.16.1 kernel (vm_compute, no native_compute, no axioms: Print Assumptions recorded in evidence), extraction with ExtrOcamlBasic, the OCaml driver, the Go harness and generators, protobuf-go v1.31.0 as oracle. The tie between model and Go code is differential testing on the projection named in the level text, not proof.",
+  "ref": "8 C13"
+ },
+ "C14": {
+  "level": "proof",
+  "technique": "Coq arithmetic proofs with int64 wrap-around + correspondence against durationpb/timestamppb",
+  "text": "Proved in Coq for all values/sizes (no bound): Duration split is (quot, rem) with same sign; join is exact when it fits and saturates to Min/MaxInt64 otherwise (the division test detects every product overflow); round trip on every int64; Timestamp normalisation for every int32 nanos and identity on instants. time.Unix etc. are modelled from the Go source.",
+  "note": "Trusted: Coq 8.16.1 kernel (vm_compute, no native_compute, no axioms: Print Assumptions recorded in evidence), extraction with ExtrOcamlBasic, the OCaml driver, the Go harness and generators, protobuf-go v1.31.0 as oracle. The tie between model and Go code is differential testing on the projection named in the level text, not proof.",
+  "ref": "8 C14"
+ },
+ "C15": {
+  "level": "proof",
+  "technique": "Coq algebraic proofs over the full 32-bit domain + grids (thorough: exhaustive 2^32 sweep)",
+  "text": "Proved in Coq for all values/sizes (no bound): for every value of every 32-bit kind the bytes are the closed form of the encoding document (sign extension, zig-zag, little-endian two's complement) and decoding returns the value; no exceptional value. The proof covers all 2^32 values algebraically.",
+  "note": "Trusted: Coq 8.16.1 kernel (vm_compute, no native_compute, no axioms: Print Assumptions recorded in evidence), extraction with ExtrOcamlBasic, the OCaml driver, the Go harness and generators, protobuf-go v1.31.0 as oracle. The tie between model and Go code is differential testing on the projection named in the level text, not proof.",
+  "ref": "8 C15"
+ },
+ "C19": {
+  "level": "proof",
+  "technique": "Coq proof of FieldNumber.String for every int32 + error (field,class) correspondence",
+  "text": "Proved in Coq for all values/sizes (no bound): String never panics and yields the canonical decimal numeral whose value is the number (C19_str); a wrong wire type is reported with the field's own number. PARTIAL: other error paths are tied by comparing (field, class) of model and implementation errors on reader grids.",
+  "note": "Trusted: Coq 8.16.1 kernel (vm_compute, no native_compute, no axioms: Print Assumptions recorded in evidence), extraction with ExtrOcamlBasic, the OCaml driver, the Go harness and generators, protobuf-go v1.31.0 as oracle. The tie between model and Go code is differential testing on the projection named in the level text, not proof.",
+  "ref": "8 C19"
+ },
+ "C20": {
+  "level": "proof",
+  "technique": "Coq proof (invariant + induction over all Set histories) + extracted-model correspondence",
+  "text": "Theorem C20: for every finite list of int32 arguments the model of Small.Set returns Ok with exactly the answers of a mathematical set; abstraction invariant + induction, no bound on history length or values.",
+  "note": "Trusted: Coq 8.16.1 kernel (vm_compute, no native_compute, no axioms: Print Assumptions recorded in evidence), extraction with ExtrOcamlBasic, the OCaml driver, the Go harness and generators, protobuf-go v1.31.0 as oracle. The tie between model and Go code is differential testing on the projection named in the level text, not proof.",
+  "ref": "8 C20"
+ }
 }
 NA_REASON = "machinery for this property is not built yet in this revision (work in progress; will be claimed when its check exists)"
 
